@@ -49,9 +49,11 @@ func main() {
 	}
 	opt.OneShotMs = 30000
 	opt.OneShotBudget = 90 * time.Second
+	opt.ExploreBudget = 6 * time.Minute // the unchanged tree needs about one minute for its slowest quick check
 	if *tier == "thorough" {
 		opt.OneShotMs = 240000
 		opt.OneShotBudget = 30 * time.Minute
+		opt.ExploreBudget = 0
 	}
 	mk, ok := drive.Plans[prop]
 	if !ok {
